@@ -10,6 +10,8 @@ CONFIGS = {
     "cxx17-table":   ("g++", "-std=c++17", [], "sw"),
     "cxx20-table":   ("g++", "-std=c++20", [], "sw"),
     "cxx14-f16c":    ("g++", "-std=c++14", ["-mf16c"], "f16c"),
+    "cxx14-f16c-upward": ("g++", "-std=c++14", ["-mf16c", "-DSWEEP_FE_UPWARD", "-frounding-math"], "f16c"),   # hardware path under fesetround(FE_UPWARD)
+    "cxx14-table-upward": ("g++", "-std=c++14", ["-DSWEEP_FE_UPWARD", "-frounding-math"], "sw"),
     "c-table":       ("gcc", "", [], "sw"),
     "c-notable":     ("gcc", "", ["-DIMATH_HALF_NO_LOOKUP_TABLE"], "sw"),
     "clang14-table": ("clang++", "-std=c++14", [], "sw"),
